@@ -30,6 +30,7 @@ def answer (line : String) : String :=
     else if comp == "flocksm" then FileLock.Small.drive fs
     else if comp == "ckey" then Cache.drive fs
     else if comp == "bridge" then Bridge.drive fs
+    else if comp == "bridgec" then Bridge.Close.drive fs
     else if comp == "xloop" then CrossLoop.drive fs
     else if comp == "cachelts" then Cache.LTS.drive fs
     else if comp == "ping" then "pong"
